@@ -239,6 +239,22 @@ def genTabStmt (i : Nat) : G (Stmt × String) := do
         pure (.mk (outer ++ [.nested { sym := sym } (.mk (inner ++ [.pairs t]))]))
       let (s, _) ← g.run 0
       pure (s, "pairs-of-three-inside-nested")
+    else if (i / 5) % 3 = 1 then do
+      -- a nested component outside the pair braces and one of the same type closing a group:
+      -- the expanded statement holds both, joined by the implicit conjunction
+      let g : GS Stmt := do
+        let sym ← liftG (pick (Sym.nestables.filter (fun (x : Sym) => !x.isProperty)))
+        let outer ← genFlatParts (← liftG (range 1 2)) 1 [sym]
+        let o1 ← genFlatParts (← liftG (range 1 2)) 0
+        let gi ← genFlatParts (← liftG (range 1 2)) 0
+        let g1 ← genFlatParts (← liftG (range 1 2)) 0 [sym]
+        let g2 ← genFlatParts (← liftG (range 1 2)) 0 [sym]
+        let op ← liftG (pick ops3)
+        let outsideNested : Part ← if (← liftG (chance 1 2)) then pure (Part.nested { sym := sym } (Stmt.mk o1))
+          else pure (Part.ncomb { sym := sym } (.op (← liftG (pick ops3)) (.one { sym := sym } (Stmt.mk o1)) (.one { sym := sym } (Stmt.mk (← genFlatParts 1 0)))))
+        pure (Stmt.mk (outer ++ [outsideNested, Part.pairs (.op op (.grp (Stmt.mk (g1 ++ [Part.nested { sym := sym } (Stmt.mk gi)]))) (.grp (Stmt.mk g2)))]))
+      let (s, _) ← g.run 0
+      pure (s, "nested-outside-and-in-group")
     else do let s ← genNestedSup { depth := 1, pairs := true, nestedPairs := true, groupNested := true }; pure (s, "pairs")
   | _ => do let s ← genSupC02 3; pure (s, "nested-deep")
 
